@@ -7,7 +7,7 @@ from mc.core import Acc, Hang
 
 ID = "C09"
 RULE = ("E-INPUT: the C07 datasets (<= 2 data quick, <= 3 thorough; numeric and datetime kinds) x 4 directions x domain "
-        "{derived, explicit} x 5 engine option sets x 2 size/padding/margin sets (plus box sizes with many significant digits, and axes of ~2000 and ~40000 units with explicit domains), each with one of 15 colour/border/tick-cross/dot-radius/canvas/latex "
+        "{derived, explicit} x 5 engine option sets x 2 size/padding/margin sets (plus box sizes with many significant digits, and axes of ~2000, ~40000 and ~3,000,000 units with explicit domains), each with one of 15 colour/border/tick-cross/dot-radius/canvas/latex "
         "variants (3-digit hex, 6-digit hex, short colour lists that wrap around, functions of the datum, for dot/link/label "
         "background/label text/border colour, one at a time and all together) assigned in rotation so every variant meets every "
         "configuration. Two timelines from deep-copied data and separately built equal scales; SVG and TikZ exports parsed and "
